@@ -180,6 +180,10 @@ def fmtOut : Eng.Out → String
   | .names l => "[" ++ ",".intercalate ((l.toArray.qsort (· < ·)).toList.map toString) ++ "]"
   | .trk none => "none"
   | .trk (some f) => s!"{f.locked},{f.ckpt},{f.total},{if f.fully then 1 else 0}"
+  | .trks l => ";".intercalate (((l.toArray.qsort (fun a b => a.1 < b.1)).toList).map fun (n, o) =>
+      match o with
+      | none => s!"{n}=none"
+      | some f => s!"{n}={f.locked},{f.ckpt},{f.total},{if f.fully then 1 else 0}")
 
 def parseEngOp (st : DState) (toks : List String) : Option Eng.Op :=
   match toks with
@@ -190,6 +194,7 @@ def parseEngOp (st : DState) (toks : List String) : Option Eng.Op :=
   | ["kill"] => some .kill
   | ["ls"] => some .ls
   | ["trk", n] => n.toNat?.map Eng.Op.trk
+  | ["trks"] => some .trks
   | ["append", t, p] => do some (.append (← parseTopic t) (← parsePay p))
   | ["batch", t, ps] => do some (.batch (← parseTopic t) (← parsePays ps))
   | ["next", t, cp] => do some (.next (← parseTopic t) (cp == "1"))
@@ -246,7 +251,10 @@ def handleEng (st : DState) (toks : List String) : Option (DState × String) :=
         | .bread t m cp s => some (.bread t m cp s)
         | .count t => some (.count t)
         | _ => none
-      let tainted := st.tainted || !q.isEmpty
+      let deleted : Bool := match op, o with
+        | .reclaim, .names l => !l.isEmpty
+        | _, _ => false
+      let tainted := st.tainted || !q.isEmpty || deleted
       -- a clean restart (StrictlyAtOnce, no finding triggered so far, no allocated-but-empty block):
       -- the entry-level model goes through `AEng.reopen`; otherwise it stops here
       let reopened : Option AEng.AState :=
